@@ -199,8 +199,21 @@ TieForms ==
                  <<N(k), N(h - 1), Op("mul")>>, <<N(h), N(k), Op("mul"), W(16384), Op("mul"), W(4), Op("mul")>>,
                  <<N(k), W(2), Op("div")>>, <<N(k), W(-2), Op("div")>>, <<N(k), W(4), Op("div")>>,
                  <<N(3 * k), W(3), Op("div")>>, <<N(k), N(h), Op("div")>> } : k \in TieKs }
+\* truth tables: the comparison and logic operators on operand pairs whose sum, difference or product
+\* vanishes (x and -x, x and x, 0 and x, 0 and 0), ifelse on both sides of and at equality
+LogicPairs == LET x == MaxOf(SVals) IN
+  IF Sim THEN {<<x, -x>>, <<-x, x>>, <<x, x>>, <<0, x>>, <<x, 0>>, <<0, 0>>, <<-x, 0>>}
+  ELSE {<<x, -x>>, <<x, x>>, <<0, x>>, <<0, 0>>}          \* the exhaustive runs: one pair per vanishing quantity
+LogicForms ==
+  LET N(v) == Num(v)  W(k) == Num(k * Unit) IN
+  UNION { {<<N(p[1]), N(p[2]), Op(o)>> : o \in {"eq", "and", "or", "add", "sub"}}
+            \cup {<<N(p[1]), Op("not")>>, <<N(p[1]), Op("abs")>>,
+                  <<W(7), W(9), N(p[1]), N(p[2]), Op("ifelse")>>}
+                \cup (IF Sim THEN {<<N(p[1]), N(p[2]), Op("and"), N(p[2]), Op("or")>>,
+                                   <<N(p[1]), N(p[2]), Op("eq"), Op("not")>>} ELSE {})
+          : p \in LogicPairs }
 \* (the parameter keeps TLC from treating the random picks as a constant, too)
-Forms(dummy) == IF Sim THEN FormsOf(Pick(SVals), Pick(SVals)) ELSE FormsAll
+Forms(dummy) == IF Sim THEN FormsOf(Pick(SVals), Pick(SVals)) \cup LogicForms ELSE FormsAll \cup LogicForms
 
 \* forms that work on the operands already pushed for this operator (net effect +1, +1, 0, 0)
 StackForms ==
